@@ -224,10 +224,13 @@ class LegacyBlock:
         return kernel(self.target.joint.c, self.target.name, self.target.cond, x, len(np.atleast_1d(x)))
 
 
-def legacy_sweep(c, k=2):
+def legacy_sweep(c, k=2, grouping=None):
+    """`grouping`: the documented short form of the sampling strategy - several parameters under ONE tuple key share a sampler class; they are still
+    separate blocks, each conditioned on the latest values of all the others (including those of its own group drawn earlier in the sweep)"""
     names = ['a', 'b', 'cc'][:k]; dims = {n: (2 if i % 2 == 0 else 1) for i, n in enumerate(names)}
     J = StubJoint(c, dims)
-    G = Gibbs(J, {n: LegacyBlock for n in names})
+    strategy = {n: LegacyBlock for n in names} if grouping is None else {(g if len(g) > 1 else g[0]): LegacyBlock for g in grouping}
+    G = Gibbs(J, strategy)
     cur = {n: c.vec(f'cur_{n}', dims[n]) for n in names}
     LegacyBlock.log.clear(); J.log.clear()
     out = G.step({n: cur[n].copy() for n in names})
@@ -344,6 +347,8 @@ def jobs(tier):
     LG = ['cuqi.sampler._gibbs:Gibbs.step', 'cuqi.sampler._gibbs:Gibbs.sample', 'cuqi.sampler._gibbs:Gibbs._get_initial_points', 'cuqi.sampler._gibbs:Gibbs._store_samples', 'cuqi.sampler._gibbs:Gibbs._allocate_samples']
     for k in (2, 3):
         J.append(Job(f'legacy.Gibbs.sweep:blocks={k}', lambda c, k=k: legacy_sweep(c, k), 'Pbox', LG))
+    for k, grouping in ((2, (('a', 'b'),)), (3, (('a', 'b'), ('cc',))), (3, (('a',), ('b', 'cc'))), (3, (('a', 'b', 'cc'),))):
+        J.append(Job(f'legacy.Gibbs.sweep:blocks={k}:strategy_keys={"|".join("+".join(g) for g in grouping)}', lambda c, k=k, g=grouping: legacy_sweep(c, k, g), 'Pbox', LG + ['cuqi.sampler._gibbs:Gibbs.__init__']))
     J.append(Job('legacy.Gibbs:stored_columns_and_continuation', legacy_run, 'Pbox', LG))
     J.append(Job('HybridGibbs:block_target_of_a_real_joint:several_dependent_factors', block_target_of_real_joint, 'B', ['cuqi.experimental.mcmc._gibbs:HybridGibbs._set_target', 'cuqi.distribution._joint_distribution:MultipleLikelihoodPosterior.gradient'], nnum=3))
     for case in ('one_object_for_two_blocks', 'objects_of_a_finished_run'):
